@@ -387,7 +387,7 @@ Verdict judge(const Plan &plan, const sim::Shm *shm, const ChildExit &ex, const 
                 }
                 model.out.clear();
                 if (f.a == 100) {
-                    Delivery d;
+                    Delivery d = Delivery(); // (value-initialised: the struct has plain members)
                     d.text = "Cls" + std::to_string(cid) + "::fn" + std::to_string(cid) + "|" + c.text;
                     model.out.push_back(d);
                 } else {
